@@ -112,6 +112,27 @@ def pydantic_stricter_datetime(case):
     return False
 
 
+def pydantic_parser_overflow(case):
+    """some sample string makes pydantic.v1's own date/time/datetime parser raise something that is not a ValueError
+    (OverflowError for huge numbers read as timestamps); pydantic does not catch it while trying union members"""
+    o = case.get("opts", {}) if isinstance(case, dict) else {}
+    if o.get("fw") not in ("pydantic", "sqlmodel"):
+        return False
+    from . import pipeline as pl
+    from pydantic.v1 import datetime_parse as dp
+    parsers = {"IsoDateString": dp.parse_date, "IsoTimeString": dp.parse_time, "IsoDatetimeString": dp.parse_datetime}
+    names = [n for n in pl.norm_opts(o)["sreg"] if n in parsers]
+    for s in set(all_strings(case_samples(case))):
+        for n in names:
+            try:
+                parsers[n](s)
+            except ValueError:
+                pass
+            except Exception:  # noqa: BLE001
+                return True
+    return False
+
+
 def legacy_list_order(case):
     return bool(isinstance(case, dict) and case.get("legacy_first"))
 
@@ -124,6 +145,7 @@ PREDICATES = dict(
     attrs_field_converter=attrs_field_converter,
     pydantic_optional_container_of_none=pydantic_optional_container_of_none,
     legacy_list_order=legacy_list_order,
+    pydantic_parser_overflow=pydantic_parser_overflow,
     nfkc_unstable_key=nfkc_unstable_key,
     class_name_collision=class_name_collision,
     pydantic_stricter_datetime=pydantic_stricter_datetime,
